@@ -333,3 +333,30 @@ package cache
 //@   assert at call internal/cache.WireNameEqualsPresentation#1: arg0 == candidate && arg1 == entry.deniedName
 //@   assert at call internal/cache.KeyWire#1: arg0 == candidate && arg2 == qclass
 //@   assert at return#3: !result && lastret("internal/cache.KeyWire", 1) && entry != nil && lastret("internal/cache.WireNameEqualsPresentation") && lastret("(time.Time).Before")
+//@
+//@ # ---- C19 / C03: the wire fast path. A request carrying ECS never enters it (neither the exact-hit serve nor the
+//@ # shared composite ladder); an exact hit is served only after the full-preimage verification of the wire question;
+//@ # every alias-chase hop is verified with the client's CD partition
+//@ func (*Cache).serveWire
+//@   abstract
+//@   nosafety all pre
+//@   assert at call (*middleware/cache.Cache).serveCompositeFromWire#1: lastret("(*middleware.Request).RD") && !lastret("(*middleware.Request).HasECS") && calls("(*middleware.Request).HasECS") == 1
+//@   assert at call (*middleware/cache.Cache).serveHitFromWire#1: lastret("(*middleware.Request).RD") && !lastret("(*middleware.Request).HasECS") && lastret("middleware/cache.entryMatchesWire") && arg3 == lastret("(*middleware/cache.Cache).checkCache") && arg3 != nil
+//@   assert at call internal/cache.KeyWire#1: calls("(*middleware.Request).HasECS") == 1 && !lastret("(*middleware.Request).HasECS")
+//@
+//@ func entryMatchesWire
+//@   abstract
+//@   nosafety all pre
+//@   assert at call middleware/cache.entryMatchesWireQuestion#1: arg0 == entry && arg1 == lastret("(*middleware.Request).WireName") && arg2 == lastret("(*middleware.Request).Qtype") && arg3 == lastret("(*middleware.Request).Qclass") && arg4 == lastret("(*middleware.Request).CD")
+//@   assert at return: result == lastret("middleware/cache.entryMatchesWireQuestion")
+//@
+//@ func entryMatchesWireQuestion
+//@   modifies nothing
+//@   ensures result ==> matchesPre(entry, qtype, qclass, cd, netip.Prefix{}) && presName(wireName, 0, entry.question.Name, 0, false)
+//@
+//@ func (*Cache).collectWireChase
+//@   abstract
+//@   nosafety all pre
+//@   assert at call middleware/cache.entryMatchesWireQuestion#1: arg0 == next && arg1 == target && arg2 == qtype && arg3 == qclass && arg4 == cd
+//@   assert at call (*middleware/cache.Cache).checkCache#1: arg1 == lastret("internal/cache.KeyWire") && lastret("internal/cache.KeyWire", 1)
+//@   assert at call internal/cache.KeyWire#1: arg0 == target && arg1 == qtype && arg2 == qclass && arg3 == cd
